@@ -67,6 +67,14 @@ func H02a_3blocks_embedded() { h02(3, 0) }
 func H02b_3blocks_pool1()    { h02(3, 1) }
 func H02c_3blocks_pool2()    { h02(3, 2) }
 func H02d_2blocks()          { h02(2, 0) }
+
+// H02g: a non-nil pool without certificates trusts nothing (in particular not the embedded root).
+func H02g_EmptyPoolTrustsNothing() {
+	w := mkPKI(-1, nil)
+	quote := mkQuote(w, 0)
+	err := TdxQuote(quote, &Options{TrustedRoots: w.pool, Now: symTimeSet("t")})
+	vp.Assert("empty-pool-trusts-nothing", err != nil)
+}
 func H02e_4blocks()          { h02(4, 1) }
 
 // ---- root-of-trust configuration ----
